@@ -153,7 +153,21 @@ def run(tier, v):
     Rq2 = b"GET /sequel HTTP/1.1\r\nHost: sequel.example\r\nUser-Agent: ua-sequel\r\nAccept: */*\r\n\r\n"
     lib["sq_h1_first"] = tcp_conn(52, [Rq1], port=80, resp=b"HTTP/1.1 200 OK\r\nServer: srv-first\r\n\r\nok", **sq)
     lib["sq_h1_sequel"] = tcp_conn(53, two(Rq2, 25), port=80, resp=b"HTTP/1.1 404 Not Found\r\nServer: srv-sequel\r\n\r\nno", **sq)
-    sequels = {"tls": [("sq_tls_first", "sq_tls_sequel")], "http": [("sq_h1_first", "sq_h1_sequel")], "uni": [("sq_tls_first", "sq_tls_sequel"), ("sq_h1_first", "sq_h1_sequel")]}
+    # predecessors whose last packet (the response that ends the exchange) is one that a protocol layer refuses although it carries
+    # payload: the first IP fragment of a large response (MF set), a data segment with PSH but no ACK, with FIN+RST
+    def last_variant(conn, how):
+        c = dict(conn, frames=list(conn["frames"]))
+        b = bytearray(c["frames"][-1])
+        if how == "mf":
+            b[20] |= 0x20
+        else:
+            b[14 + 20 + 13] = {"psh_noack": 0x08, "finrst": 0x1d}[how]
+        c["frames"][-1] = bytes(b)
+        return c
+    for how in ("mf", "psh_noack", "finrst"):
+        lib["sq_h1_first_" + how] = last_variant(lib["sq_h1_first"], how)
+    sequels = {"tls": [("sq_tls_first", "sq_tls_sequel")], "http": [("sq_h1_first", "sq_h1_sequel")] + [("sq_h1_first_" + how, "sq_h1_sequel") for how in ("mf", "psh_noack", "finrst")],
+               "uni": [("sq_tls_first", "sq_tls_sequel"), ("sq_h1_first", "sq_h1_sequel")] + [("sq_h1_first_" + how, "sq_h1_sequel") for how in ("mf", "psh_noack", "finrst")]}
     # connections with independently drawn features (lib/props/traffic.py): address family and form, ports, TTL, TOS, fragment word,
     # IP options, MAC addresses, SYN options, timestamps, sequence numbers at the wrap, message shapes, segmentation
     from props import traffic
